@@ -371,7 +371,9 @@ where
         let (new_laidx, n_pstack) =
             self.parser
                 .lr_cactus(None, laidx, laidx + 1, n.pstack.clone(), &mut None);
-        if n.pstack != n_pstack {
+        // Shifting can leave the stack as it was (e.g. in a left-recursive list rule), so a
+        // successful shift must be kept even if the stacks are equal.
+        if n.pstack != n_pstack || new_laidx > laidx {
             let n_repairs = if new_laidx > laidx {
                 n.repairs.child(RepairMerge::Repair(Repair::Shift))
             } else {
